@@ -38,7 +38,9 @@ def derived_replacement(draw, pat, kinds=None):
         for i in dropped:
             if draw(st.integers(0, 3)) == 0:
                 rpos.append(spos[i].copy())
-                rels.append(draw(st.sampled_from([e for e in gen_geom.ALPHABET + ["F"] if e != sels[i]])))
+                # often the one-/two-letter partner with the same first letter (Cl -> C, Na -> N, C -> Co ...)
+                partners = [e for e in ["C", "Cl", "Co", "N", "Na", "S", "Si"] if e != sels[i] and e[0] == sels[i][0]]
+                rels.append(draw(st.sampled_from(partners * 3 + [e for e in gen_geom.ALPHABET + ["F"] if e != sels[i]])))
                 src.append(None)
             elif draw(st.integers(0, 5)) == 0:
                 # almost-shared: same element, moved by >= 1e-3 -> must be treated as a different atom
@@ -96,7 +98,7 @@ def payload(draw, sels):
 def replace_case(draw, repl_kinds=None, fractions=True, with_hints=True, max_copies=3, pattern_classes=None,
                  cell_classes=None, tightness=(1.02, 1.5, 3.0), decoys=True, noise_levels=(0.0, 1 / 64.0, 1 / 32.0),
                  atols=None, max_atoms=5, with_payload=True):
-    pat = draw(gen_geom.pattern(classes=pattern_classes, max_atoms=max_atoms))
+    pat = draw(gen_geom.pattern(classes=pattern_classes, max_atoms=max_atoms, alphabet=draw(st.sampled_from(gen_geom.ALPHABETS))))
     rp = draw(derived_replacement(pat, kinds=repl_kinds))
     both = list(pat["pos"]) + list(rp["pos"])
     d_all = geom.diameter(both)
